@@ -337,10 +337,13 @@ class RewriterScenario:
                 return K(args[0] == args[1])
         return None
 
-    def result(self, env: Dict[str, V]) -> V:
+    last_state: Optional[State] = None
+
+    def result(self, env: Dict[str, V], carry: Optional[State] = None) -> V:
         e = {"self": S("self")}
         e.update(env)
-        outs = self.ri.run(e)
+        outs = self.ri.run(e, carry=carry)
+        self.last_state = outs[0] if outs else None
         if len(outs) != 1:
             raise AnalysisError(f"{self.fi.fq}: {len(outs)} outcomes for one scenario")
         o = outs[0]
@@ -348,9 +351,6 @@ class RewriterScenario:
             return K(None)
         if o.term[0] == "raise":
             return R("raises", what=K(str(o.term[1])))
-        bad = [x for x in o.effects if x[0] in ("KeyError", "IndexError")]
-        if bad:
-            return R("raises", what=K(bad[0][0]))
         return o.freeze(o.term[1])
 
 
